@@ -457,6 +457,13 @@ func (ctx *EvalCtx) evalLoc(e ast.Expr) (*Loc, error) {
 			return nil, fmt.Errorf("modifies: * on non-pointer")
 		}
 		return ctx.X.locOf(base, pt.Elem()), nil
+	case *ast.Ident:
+		// a local variable that lives in memory (its address is taken in the code)
+		v := ctx.eval(n)
+		if v.Loc != nil && isAggregate(v.Typ) {
+			return v.Loc, nil
+		}
+		return nil, fmt.Errorf("location of %s: not an addressable aggregate variable", n.Name)
 	}
 	return nil, fmt.Errorf("modifies: unsupported location expression")
 }
